@@ -17,6 +17,10 @@ def fltParamL (lo hi : Nat) : List Bytes :=
 
 def sizeParamL (lo hi : Int) : List Bytes := [intKey lo, if hi = maxInt then defaultKey else intKey hi]
 
+/-- `TupleType.ToKey` of the parameter Tuple of a Callable (no explicit size) -/
+def tupKeyOf (ts : List Ty) : Bytes :=
+  [1, 0x74] ++ ekStr [0x54, 0x75, 0x70, 0x6c, 0x65] ++ tyKeys ts ++ sizeParams ts.length ts.length
+
 /-- the parameter list of a wrapper type (`wrapParam` as a list of keys) -/
 def wrapParamL (quirk : Bool) (t : Ty) : List Bytes :=
   if t.isAny then []
@@ -51,8 +55,7 @@ def tyParamL : Ty → List Bytes
       else if (k.isUnit ∧ v.isUnit) ∧ (lo = 0 ∧ hi = 0) then [intKey 0, intKey 0]
       else tyKey k :: tyKey v :: (if lo = 0 ∧ hi = maxInt then [] else sizeParamL lo hi)
   | .like b n => if b.isAny ∧ n.isEmpty then [] else [tyKey b, strMark ++ n]
-  | .callable none => []
-  | .callable (some ts) => (ts.filter (fun t => !t.isUnit)).map tyKey
+  | .callable h ts => [if h then tupKeyOf ts else undefKey, undefKey, undefKey]
   | .runtime rt n p =>
       if (rt.isEmpty ∧ n.isEmpty) ∧ p.isNone then []
       else (strMark ++ rt) :: ((if n.isEmpty then [] else [strMark ++ n]) ++ (match p with | none => [] | some p => [rxTyKey p]))
@@ -69,11 +72,6 @@ theorem tyKeys_eq : ∀ ts : List Ty, tyKeys ts = flat ((ts.map tyKey).map frame
 theorem tyKeyL_eq : ∀ ts : List Ty, tyKeyL ts = ts.map tyKey
   | [] => rfl
   | t :: ts => by simp [tyKeyL, tyKeyL_eq ts]
-
-theorem tyKeysNU_eq : ∀ ts : List Ty, tyKeysNU ts = flat (((ts.filter (fun t => !t.isUnit)).map tyKey).map frame)
-  | [] => rfl
-  | t :: ts => by
-      cases h : t.isUnit <;> simp [tyKeysNU, h, flat, tyKeysNU_eq ts]
 
 theorem frames_eq : ∀ ks : List Bytes, frames ks = flat (ks.map frame)
   | [] => rfl
@@ -135,10 +133,7 @@ theorem tyKey_shape (t : Ty) : tyKey t = [1, 0x74] ++ (frame (strMark ++ t.name)
   | like b n =>
     simp only [tyKey, tyParamL, Ty.name, ekStr]
     split <;> simp [flat]
-  | callable ts =>
-    cases ts with
-    | none => simp [tyKey, tyParamL, Ty.name, ekStr, flat]
-    | some ts => simp [tyKey, tyParamL, Ty.name, ekStr, tyKeysNU_eq]
+  | callable h ts => cases h <;> simp [tyKey, tyParamL, Ty.name, ekStr, flat, tupKeyOf]
   | runtime rt n p =>
     simp only [tyKey, tyParamL, Ty.name, ekStr]
     split
@@ -157,7 +152,7 @@ def nameTag : Ty → NameTag
   | .arr _ _ _ => .arr | .var _ => .var | .tup _ _ => .tup | .opt _ => .opt | .typ _ => .typ
   | .nul k => .nul k | .bool _ => .bool | .coll _ _ => .coll | .un k _ => .un k
   | .strSize _ _ => .str | .strVal _ => .str | .rx _ => .rx | .pattern _ => .pattern | .tref _ => .tref
-  | .semverT _ _ => .semver | .hash _ _ _ _ => .hash | .like _ _ => .like | .callable _ => .callable | .runtime _ _ _ => .runtime
+  | .semverT _ _ => .semver | .hash _ _ _ _ => .hash | .like _ _ => .like | .callable _ _ => .callable | .runtime _ _ _ => .runtime
 
 def tagName : NameTag → Bytes
   | .any => Ty.any.name | .undef => Ty.undef.name | .str => Ty.str.name | .int => (Ty.int 0 0).name | .flt => (Ty.flt 0 0).name
@@ -165,7 +160,7 @@ def tagName : NameTag → Bytes
   | .opt => (Ty.opt .any).name | .typ => (Ty.typ .any).name | .nul k => (Ty.nul k).name | .bool => (Ty.bool none).name
   | .coll => (Ty.coll 0 0).name | .un k => (Ty.un k .any).name | .rx => (Ty.rx []).name | .pattern => (Ty.pattern []).name
   | .tref => (Ty.tref []).name | .semver => (Ty.semverT [] []).name
-  | .hash => (Ty.hash .any .any 0 0).name | .like => (Ty.like .any []).name | .callable => (Ty.callable none).name
+  | .hash => (Ty.hash .any .any 0 0).name | .like => (Ty.like .any []).name | .callable => (Ty.callable false []).name
   | .runtime => (Ty.runtime [] [] none).name
 
 theorem name_tag (t : Ty) : t.name = tagName (nameTag t) := by
@@ -624,6 +619,26 @@ theorem runtimeParam_iff {rt n rt' n' : Bytes} {p p' : Option Bytes} :
           first | exact hrest | (obtain ⟨e1, e2⟩ := hrest; exact ⟨e1, e2⟩) | skip
   · rintro ⟨⟨rfl, rfl⟩, rfl⟩; rfl
 
+theorem tupKeyOf_eq (ts : List Ty) : tupKeyOf ts = tyKey (.tup ts none) := by simp [tupKeyOf, tyKey, goaSize]
+
+/-- the key of the parameter Tuple of a Callable decides its `Equals` (given that fact for the member lists) -/
+theorem tupKeyOf_iff {ts us : List Ty} (h1 : (ts.length : Int) ≤ maxInt) (h2 : (us.length : Int) ≤ maxInt)
+    (hL : ts.map tyKey = us.map tyKey ↔ ts.length = us.length ∧ tyEqL ts us = true) :
+    tupKeyOf ts = tupKeyOf us ↔ ts.length = us.length ∧ tyEqL ts us = true := by
+  rw [tupKeyOf_eq, tupKeyOf_eq, tyKey_eq_iff]
+  simp only [Ty.name, tyParamL, goaSize, true_and]
+  have o1 : IntOk (ts.length : Int) := by simp only [IntOk, minInt, maxInt] at *; omega
+  have o2 : IntOk (us.length : Int) := by simp only [IntOk, minInt, maxInt] at *; omega
+  rw [append_sep (P := IsTyKey) (map_tyKey_isTyKey ts) (map_tyKey_isTyKey us) not_isTyKey_size not_isTyKey_size, hL,
+    sizeParamL_inj o1 o1 o2 o2]
+  constructor
+  · rintro ⟨h, _⟩; exact h
+  · rintro ⟨h, h'⟩; exact ⟨⟨h, h'⟩, by rw [h], by rw [h]⟩
+
+theorem undefKey_ne_tyKey (t : Ty) : undefKey ≠ tyKey t := by
+  obtain ⟨r, hr⟩ := tyKey_hd t
+  rw [hr]; simp [undefKey]
+
 mutual
 theorem tyKey_iff : ∀ a b : Ty, TyWF a = true → TyWF b = true → (tyKey a = tyKey b ↔ tyEq a b = true)
   | .any, b, _, _ => by rw [tyKey_eq_iff, name_eq_iff]; cases b <;> simp [nameTag, tyEq, tyParamL]
@@ -840,12 +855,23 @@ theorem tyKey_iff : ∀ a b : Ty, TyWF a = true → TyWF b = true → (tyKey a =
         simp only [nameTag, true_and, tyEq, Bool.and_eq_true, beq_iff_eq]
         exact likeParam_iff (tyKey_iff t t' ha hb)
       | _ => simp [nameTag, tyEq]
-  | .callable ts, b, ha, hb => by
+  | .callable h ts, b, ha, hb => by
       rw [tyKey_eq_iff, name_eq_iff]
       cases b with
-      | callable us =>
-        cases ts <;> cases us <;> simp [TyWF] at ha hb
-        simp [nameTag, tyEq, tyParamL]
+      | callable h' us =>
+        cases h with
+        | false =>
+          cases h' with
+          | false => simp [nameTag, tyEq, tyParamL]
+          | true => simp [nameTag, tyEq, tyParamL, tupKeyOf_eq, undefKey_ne_tyKey]
+        | true =>
+          cases h' with
+          | false => simp [nameTag, tyEq, tyParamL, tupKeyOf_eq, (undefKey_ne_tyKey _).symm]
+          | true =>
+            simp only [TyWF, Bool.not_true, Bool.false_or, Bool.and_eq_true, decide_eq_true_eq] at ha hb
+            simp only [nameTag, tyEq, tyParamL, true_and, List.cons.injEq, and_true, Bool.and_eq_true, beq_iff_eq, if_true,
+              beq_self_eq_true, Bool.not_true, Bool.false_or]
+            exact tupKeyOf_iff ha.2 hb.2 (tyKey_iff_L ts us ha.1 hb.1)
       | _ => simp [nameTag, tyEq]
   | .runtime rt n p, b, _, _ => by
       rw [tyKey_eq_iff, name_eq_iff]
